@@ -169,6 +169,24 @@ CLAIMS['C17'] = dict(
     note='Trusted: clang 14 front end/CFG; the lists of report options, code-affecting state and report sinks in rules/c17.py; three listed exceptions.',
     ref='5 (C17), 4 (A5-ii)')
 
+CLAIMS['C14'] = dict(
+    technique='table agreement of registered opcode constants with embedded ISA references, well-formedness lints on resolved expressions (fold thresholds, mask vs range check, distance windows)',
+    text=('Decides for 6502, 8080/8085, Z80 (fixed set), MSP430, PIC16C8x, AVR and 4004/4040: 300 table-driven opcode '
+          'constants equal the manufacturers\' instruction-set summaries; sign-extension/wrap thresholds are well formed; '
+          'a range-checked operand is never masked narrower than the accepted range; distance errors are guarded by '
+          'two\'s-complement windows. Fields composed in handler code and per-mode operand encodings are not decided.'),
+    note='Trusted: clang 14 front end/CFG; oracles/isa/*.tbl written from the manufacturers\' instruction-set summaries (independent of the tree).',
+    ref='5 (C14), 4 (A2, A11)')
+CLAIMS['C15'] = dict(
+    technique='cross-table agreement between the assembler\'s registration tables and the disassembler\'s opcode tables; fold-threshold lint',
+    text=('Decides for 6800/6802 and 4004/4040: every opcode the assembler can emit from its tables is decoded by the '
+          'disassembler with one of the assembler\'s mnemonics for that opcode and the matching operand class (regular '
+          'mode offsets of the ISA); sign-extension thresholds are well formed (displacement $80); relative targets are '
+          'address + 2 + displacement. The 87C800 disassembler (code-driven), control-flow tracing and label synthesis '
+          'are not decided.'),
+    note='Trusted: clang 14 front end; the regular 6800/4004 mode-offset encoding stated in rules/c15.py.',
+    ref='5 (C15)')
+
 NA_REASONS = {}
 
 
